@@ -10,6 +10,7 @@ from ..engine.runner import Rule
 from ..engine.source import AnalysisError
 from ..engine.sqlfront import all_where_clauses, split_conjuncts
 from . import C10
+from . import C11
 from . import shared
 from .common import callee_name, calls_in
 
@@ -263,6 +264,16 @@ def rule_redeclared_running_step(ctx):
     upd = [c for c in calls_in(rec.node) if callee_name(c) == "update_file_hashes"]
     rec_ok = bool(upd) and any(k.arg == "cause" and "FAILED" in ast.unparse(k.value) for k in upd[0].keywords) and _filters_by_state(rec.node, upd[0])
     ctx.check(rec_ok, rec.fq, "what a dropped run wrote is recorded with cause FAILED, for paths that are still outputs", "recorded with another cause, or for paths whose role changed while the hashes were computed (no such transition: ConsistencyError)", "role filter + cause=FAILED")
+    # the outputs in question are detached by the re-creation: the lookups must see detached nodes
+    for fq_ in ("executor.Executor._record_written_outputs", "executor.Executor._restart_if_declared_again"):
+        f_ = ctx.prog.func(fq_)
+        looks = [c for c in calls_in(f_.node) if callee_name(c) in ("find", "find_attached", "find_and_detached") and c.args and ast.unparse(c.args[0]) == "File"]
+        blind = []
+        for c in looks:
+            tgt = ctx.prog.find_method(ctx.prog.cls("workflow.Workflow"), callee_name(c))
+            if tgt is None or re.search(r"NOT\s+detached", ast.unparse(tgt.node)):
+                blind.append(callee_name(c))
+        ctx.check(bool(looks) and not blind, fq_, "the former outputs are looked up including detached nodes", f"lookup through {blind or 'nothing'}: the re-creation has detached the outputs the old command wrote, they are skipped, get no hash and stay on disk after the cleanup", "Trellis.find (no attachment filter)")
     ok_dyn = re.search(r"run\.step\.out_paths\(raw=True\)", rsrc) is not None
     ctx.check(ok_dyn, rs.fq, "the former outputs the re-created step is still linked to (amended ones included) are hashed as well", "only the outputs declared at launch are recorded: a file the replaced command declared with amend(out=...) stays on disk for ever", "out_paths(raw=True)")
     ok_out = rec_ok and "_record_written_outputs" in seq and "compute_out_hashes" in rsrc and re.search(r"run\.launched_decl\[2\]", rsrc) is not None and seq.index("_record_written_outputs") < seq.index("set_state")
@@ -362,7 +373,8 @@ def rule_pool_initialised(ctx):
 
 
 RULES = [
-    Rule("R-C12-10", "a step declared again while running keeps its row and is run again afterwards", rule_redeclared_running_step, min_instances=20),
+    Rule("R-C12-11", "a step sheds what its previous run declared before it counts as running (a leftover declared inside a hold that was never released is otherwise dispatched: its creator is RUNNING with _holding = 0)", C11.rule_running_sheds_products, min_instances=5),
+    Rule("R-C12-10", "a step declared again while running keeps its row and is run again afterwards", rule_redeclared_running_step, min_instances=22),
     Rule("R-C12-9", "the resource pool is initialised from the command line", rule_pool_initialised, min_instances=1),
     Rule("R-C12-8", "steps (re)attached inside a hold block are re-examined (hold clause relies on the _safe recomputation)", C10.rule_step_overrides, min_instances=8),
     Rule("R-C12-7", "resource claims are replaced on declaration", rule_claims_replaced, min_instances=7),
@@ -385,6 +397,8 @@ MUTANTS = [
     Mutant("replaced-command-outputs-forgotten", "executor.py", in_function("Executor._restart_if_declared_again", replace_once("                self._record_written_outputs(result.new_hashes)\n", "                pass\n")), ("R-C12-10",)),
     Mutant("dropped-run-outputs-recorded-whatever-their-role", "executor.py", in_function("Executor._record_written_outputs", replace_once("        self.workflow.update_file_hashes(still_outputs, cause=HashUpdateCause.FAILED)\n", "        self.workflow.update_file_hashes(out_hashes, cause=HashUpdateCause.FAILED)\n")), ("R-C12-10",)),
     Mutant("dropped-run-outputs-recorded-as-succeeded", "executor.py", in_function("Executor._record_written_outputs", replace_once("cause=HashUpdateCause.FAILED", "cause=HashUpdateCause.SUCCEEDED")), ("R-C12-10",)),
+    Mutant("dropped-run-outputs-looked-up-attached-only", "executor.py", in_function("Executor._record_written_outputs", replace_once("self.workflow.find(File, path)", "self.workflow.find_attached(File, path)")), ("R-C12-10",)),
+    Mutant("replaced-command-outputs-looked-up-attached-only", "executor.py", in_function("Executor._restart_if_declared_again", replace_once("self.workflow.find(File, path)", "self.workflow.find_attached(File, path)")), ("R-C12-10",)),
     Mutant("declared-again-never-cleared", "executor.py", in_function("Executor._restart_if_declared_again", replace_once("            self.workflow.declared_again.discard(run.step.i)\n", "")), ("R-C12-10",)),
     Mutant("redeclared-running-row-reset", "step.py", in_function("Step.initialize_row", replace_once('"state": old_row[0] if still_running else StepState.PENDING.value,', '"state": StepState.PENDING.value,')), ("R-C12-10",)),
     Mutant("redeclared-running-loses-holds", "step.py", in_function("Step.initialize_row", replace_once('"holding": old_row[1] if still_running else 0,', '"holding": 0,')), ("R-C12-10",)),
@@ -408,5 +422,8 @@ MUTANTS = [
     Mutant("claim-after-region", "scheduler.py", in_function("Scheduler.pop_next_job", lambda s: s.replace("                step.reset_for_rerun()\n            step.set_state(state)\n", "                step.reset_for_rerun()\n        async with self.db:\n            step.set_state(state)\n") if "                step.reset_for_rerun()\n            step.set_state(state)\n" in s else None), ("R-C12-3",)),
     Mutant("bypass-marks-running", "scheduler.py", in_function("Scheduler._get_next_step", replace_once("state = StepState.CHECKING if has_hash else StepState.RUNNING", "state = StepState.RUNNING")), ("R-C12-4",)),
 ]
+
+# shared with C11 (R-C11-6): replayed for this property's copy of the rule
+MUTANTS += [Mutant("shared-" + m.name, m.file, m.transform, ("R-C12-11",), m.note) for m in C11.MUTANTS if m.name in ("running-keeps-old-products", "running-sheds-after-state", "checking-sheds-instead")]
 
 VARIANTS = []
